@@ -345,6 +345,11 @@ def run_case(idx, rng, P, rep):
                     continue
                 k = rng.choice(list(model_names))
                 x = fresh(rng)
+                if rng.random() < 0.3 and model_names[k] is not None:
+                    # replaced by an object that is equal to the one it replaces, but another object (a refreshed value)
+                    x = equal_copy(model_names[k])
+                    if x is not model_names[k]:
+                        rep.count('replaced_by_equal_object')
                 trace.append((op, k, x))
                 o[k] = x
                 i = [j for j, v in enumerate(model_objs) if v is model_names[k]][0]
